@@ -597,7 +597,19 @@ func c14Group(name string) string {
 	return name
 }
 
+var c14Unattributed []string
+var c14Confirmed int
+
 func c14Body(c *fw.Ctx) {
+	defer func() {
+		if len(c14Unattributed) > 0 {
+			if c14Confirmed == 0 {
+				c.Broken("the race detector reported %d race(s) in this worker that no scenario reproduces in a process of its own, e.g. %s", len(c14Unattributed), c14Unattributed[0])
+			} else {
+				c.Incomplete(fmt.Sprintf("%d further race report(s) in this worker could not be attributed to a scenario of their own (state left behind by other scenarios), e.g. %s", len(c14Unattributed), c14Unattributed[0]))
+			}
+		}
+	}()
 	r := newC14Runner(true)
 	if r == nil {
 		c.Broken("C14 needs the overlay-instrumented build (-tags verifoverlay)")
@@ -741,14 +753,27 @@ func c14Body(c *fw.Ctx) {
 						cs := schedCase(sc, ch)
 						g := schedEvaluator(cs)
 						if g == nil {
-							// a race report does not depend on the interleaving (no happens-before edges between the
-							// threads): fall back to the default schedule
-							cs = schedCase(sc, nil)
-							g = schedEvaluator(cs)
+							// a race report does not depend on the exact interleaving (no happens-before edges between the
+							// threads), but WHICH objects the threads share may (a pool handing out the same buffer twice):
+							// fall back to the default schedule and to a few canonical ones (other thread first, a switch
+							// after 1, 2, 4, 16, 64 decisions)
+							for _, alt := range [][]int{nil, {1}, {0, 1}, {0, 0, 1}, append(make([]int, 4), 1), append(make([]int, 16), 1), append(make([]int, 64), 1)} {
+								cs = schedCase(sc, alt)
+								if g = schedEvaluator(cs); g != nil {
+									break
+								}
+							}
 						}
-						if g == nil {
+						if g == nil && f.Class == "c14:data-race" {
+							// A race report is never a false positive, but it may be the doing of state that OTHER scenarios
+							// left in this worker (a pool that already holds a buffer twice): then this scenario cannot show
+							// it in a process of its own. It is remembered; if no scenario at all yields a finding that
+							// reproduces, the check is broken, otherwise the reproducible ones are what is reported.
+							c14Unattributed = append(c14Unattributed, fmt.Sprintf("[%s]: %s", scName, f.Subject))
+						} else if g == nil {
 							c.Broken("in-process finding %+v for [%s] did not reproduce in a fresh process", f, scName)
 						} else {
+							c14Confirmed++
 							c.Report(g, func() *fw.Case { return cs })
 						}
 					}
